@@ -20,8 +20,10 @@ from hypothesis import HealthCheck, Phase, given, settings, strategies as st
 from .choose import Chooser, shrink_choices
 
 VERIF = os.path.dirname(os.path.dirname(os.path.abspath(__file__)))
-EVIDENCE_DIR = os.path.join(VERIF, 'evidence')
-REPLAY_DIR = os.path.join(VERIF, 'replays')
+# the two output directories can be redirected (sensitivity runs against scratch copies of the
+# repository must not overwrite the evidence of the real tree)
+EVIDENCE_DIR = os.environ.get('VERIF_EVIDENCE_DIR') or os.path.join(VERIF, 'evidence')
+REPLAY_DIR = os.environ.get('VERIF_REPLAY_DIR') or os.path.join(VERIF, 'replays')
 CORPUS_DIR = os.path.join(VERIF, 'corpus')
 KNOWN_FINDINGS = os.path.join(VERIF, 'known_findings.txt')
 
